@@ -88,6 +88,21 @@ structure St (α : Type) where
   vars : Nat → Option (Val α)
   vcount : Nat := 0
   events : List (Event α) := []
+  /-- local slots known to hold the live list object itself (assigned from `self`) -/
+  aliased : List Nat := []
+
+/-- Does the expression denote the live list object itself rather than a fresh
+list (`self`, a local assigned from it; conservatively either arm of a
+conditional)?  The model's events carry *values*; the parts of a notification
+must be snapshots, so `self.notify(i, removed, self)` in place of
+`self.copy()` — the same value at that moment, but an alias the next mutation
+changes under the listener — makes the interpretation `stuck`. -/
+def aliasSelf (al : List Nat) : Expr → Bool
+  | .self => true
+  | .var i => al.contains i
+  | .ite _ a b => aliasSelf al a || aliasSelf al b
+  | .or a b => aliasSelf al a || aliasSelf al b
+  | _ => false
 
 inductive Flow (α : Type) where
   | next
@@ -293,9 +308,11 @@ def exec (C : Ctx α) : Stmt → St α → St α × Flow α
     | r => r
   | .assign i e, st =>
     match eval C.E st.self st.vars e with
-    | .ok v => ({ st with vars := setVar st.vars i v }, .next)
+    | .ok v => ({ st with vars := setVar st.vars i v,
+                          aliased := if aliasSelf st.aliased e then i :: st.aliased else st.aliased.filter (· ≠ i) }, .next)
     | .error x => (st, .raised x)
   | .assignTup is es, st =>
+    if es.any (aliasSelf st.aliased) then (st, .raised .other) else
     match evalAll C.E st.self st.vars es with
     | .ok vs => if vs.length = is.length then ({ st with vars := setVars st.vars is vs }, .next) else (st, .raised .other)
     | .error x => (st, .raised x)
@@ -354,6 +371,8 @@ def exec (C : Ctx α) : Stmt → St α → St α × Flow α
         ({ st with self := items, events := st.events ++ evs,
                    vars := match i with | some j => setVar st.vars j v | none => st.vars }, .next)
   | .notify a b c, st =>
+    -- the removed / added parts must be snapshots, not the live list (see `aliasSelf`)
+    if aliasSelf st.aliased b || aliasSelf st.aliased c then (st, .raised .other) else
     match eval C.E st.self st.vars a, eval C.E st.self st.vars b, eval C.E st.self st.vars c with
     | .ok ia, .ok (.list rs), .ok (.list as) =>
       (match toNIdx ia with
